@@ -305,4 +305,27 @@ def check_wfx(core, chk, b, cases, excuse, maxbuf=700, limit=10):
                                                    "harness": "h_re", "case": l, "implementation": o[:1500], "model_spec": m[:1500],
                                                    "differences": [[list(map(str, k)), cv, sv] for k, cv, sv in bad[:8]]})
             res["violations"] += 1; found = True
+    # ---- the Lean model of _yr_re_emit against the bytes the real function wrote (forward and backward code)
+    elines = [l[:-1] + "2" for l in lines]            # wfx=1 -> wfx=2
+    eo, ecr = run_robust(core, [b["h_re"]], elines)
+    em, _, _ = core.run_parallel([core.driver_path(), "re"], elines)
+    emm = {l.split(" ", 1)[0]: l for l in em}
+    res["emit_compared"] = 0; res["emit_mismatch"] = 0
+    for l in elines:
+        cid = l.split(" ", 1)[0]
+        o, m = eo.get(cid), emm.get(cid)
+        if not o or not m or o.split()[1] != "OK" or len(m.split()) < 3 or m.split()[1] != "E":
+            continue
+        tok = [t for t in o.split() if t.startswith("wfx=")]
+        if not tok or ":C:" not in tok[0]:
+            continue
+        ccode = tok[0].split(":C:", 1)[1]                 # <fwd hex>:<bwd hex> of the first (only) string
+        ccode = ccode.split(";")[0]
+        res["emit_compared"] += 1
+        if ccode != m.split()[2]:
+            res["emit_mismatch"] += 1
+            if res["emit_mismatch"] <= 3:
+                chk.violation("emit_%s.json" % cid, {"kind": "bytecode written by yr_re_ast_emit_code differs from the Lean model of _yr_re_emit", "engine": "re", "harness": "h_re",
+                                                    "case": l, "implementation": ccode[:1500], "model": m.split()[2][:1500]})
+            found = True
     return res, found
